@@ -124,6 +124,8 @@ def run_config(ctx, tr, build, scn, k, via, shared=None):
             names.append(pick(img))
             if img in scn["present"]:
                 nm = {"radio": "rad", "application": "app", "top": "nordic_top"}[img] + ("" if k % 2 else f"_{k}")
+                if via == "build":
+                    nm = img   # the build-system entry point names an image after its --core entry
                 data[img] = {"name": nm}
                 child_envelope(ctx, d, 10 * k + n, *pick(img), f"{nm}.suit")
         template = core.REPO / "ncs" / "root_with_nordic_top_envelope.yaml.jinja2"
@@ -132,6 +134,8 @@ def run_config(ctx, tr, build, scn, k, via, shared=None):
         for n, img in enumerate(("secdom", "sysctrl")):
             names.append(DEFAULT_NAMES[img])
             nm = {"secdom": "secdom", "sysctrl": "sysctrl"}[img] + ("" if k % 2 else f"_{k}")
+            if via == "build":
+                nm = img
             data[img] = {"name": nm}
             child_envelope(ctx, d, 10 * k + n, *DEFAULT_NAMES[img], f"{nm}.suit")
         template = core.REPO / "ncs" / "nordic_top_envelope.yaml.jinja2"
@@ -150,7 +154,10 @@ def run_config(ctx, tr, build, scn, k, via, shared=None):
     try:
         import yaml
 
-        text = build.render_template(str(template), data)
+        if via == "build":
+            text = render_by_build_cli(d, art, template, data, scn, vkeys)
+        else:
+            text = build.render_template(str(template), data)
         desc = yaml.safe_load(text)
         out = toolrun.create_lib(desc) if via == "lib" else toolrun.create_cli(desc, d, fmt="yaml")
     except Exception as e:
@@ -170,6 +177,35 @@ def run_config(ctx, tr, build, scn, k, via, shared=None):
                     "(set-component-index []), which the CDDL ([+ uint]) does not allow; the wiring conjuncts are vacuous there")
 
 
+def render_by_build_cli(d, art, template, data, scn, vkeys) -> str:
+    """The same configuration through the build system's command line: `ncs/build.py template` with one --core entry per image
+    (no binary, no devicetree), the sysbuild Kconfig file and a VERSION file."""
+    import subprocess
+    dummy = d / "image.config"
+    dummy.write_text("CONFIG_VERIF=y\n")
+    sysb = d / "sysbuild.config"
+    sysb.write_text("".join(f'{k_}="{v_}"\n' for k_, v_ in data["sysbuild"]["config"].items()) or "CONFIG_NONE=y\n")
+    a = [core.PY, str(core.REPO / "ncs" / "build.py"), "template", "--core", f"sysbuild,,,{sysb}"]
+    for img in ("radio", "application", "top", "secdom", "sysctrl"):
+        if img in data:
+            a += ["--core", f"{img},,,{dummy}"]
+    outy = d / "rendered.yaml"
+    a += ["--zephyr-base", str(d), "--artifacts-folder", art, "--template-suit", str(template), "--output-suit", str(outy)]
+    if scn["vers"] != "none":
+        vf = d / "VERSION"
+        lines = ["VERSION_MAJOR = 1", "VERSION_MINOR = 2", "PATCHLEVEL = 3", "VERSION_TWEAK = 4", "EXTRAVERSION = rc.4"]
+        if scn["vers"] == "specific":
+            lines += [f"{vkeys[0]} = {2**32 - 1}", f"{vkeys[1]} = 2.0.0-alpha"]
+        vf.write_text("\n".join(lines) + "\n")
+        a += ["--version_file", str(vf)]
+    if outy.exists():
+        outy.unlink()
+    p = subprocess.run(a, cwd=d, env=core.cli_env(), capture_output=True, text=True)
+    if not outy.exists():
+        raise RuntimeError("build.py template wrote nothing: " + p.stderr[-200:])
+    return outy.read_text()
+
+
 def run(ctx: core.Check):
     ctx.cov["rule"] = ("configuration = template x image subset x default/custom MPI names x version setting {none, DEFAULT_*, "
                        "template-specific}: 42 + 3 configurations enumerated completely by TLC; child envelopes are generated "
@@ -187,7 +223,7 @@ def run(ctx: core.Check):
     for rep in range(reps):
         for s in scns:
             k += 1
-            run_config(ctx, tr, build, s, k, "cli" if k % 9 == 0 else "lib", shared=shared)
+            run_config(ctx, tr, build, s, k, "cli" if k % 9 == 0 else ("build" if k % 9 == 4 else "lib"), shared=shared)
             if k == 5:
                 ctx.sample({"configuration": s, "events": tr.of(tr.tid)[:12]})
     ctx.cov["exhaustive"] = True
